@@ -3,6 +3,8 @@ import GmqttVerif.Proofs.Codec.Prim
 import GmqttVerif.Proofs.Codec.Utf8
 import GmqttVerif.Proofs.Codec.TopicValid
 import GmqttVerif.Proofs.Codec.Props
+import GmqttVerif.Proofs.Codec.Packets
+import GmqttVerif.Proofs.Codec.Size
 /-
   C06 — Packet codec is total, bounded and round-trips for every input.
 
@@ -214,7 +216,177 @@ theorem props_unpack_total_and_bounded (t : Option Nat) (bufr : Bytes) (ps : Pro
               rw [if_neg hc]
       · exact (hnt hterm).elim
 
+/-! ## 4. packets: all 15 types × MQTT 3.1 / 3.1.1 / 5
+
+  `WF v p` (Proofs/Codec/Packets.lean) is the explicit well-formedness predicate per packet type for reader version
+  `v`: field ranges (ids, QoS, lengths ≤ 65535), MQTT UTF-8 where the decoder demands it, valid topic name / filters,
+  flag consistency (CONNECT will flags, PUBLISH dup/QoS 0), properties `WFProps` for the packet type when — and only
+  when — the version is 5, and the nil-vs-empty shape of optional fields exactly as `Unpack` leaves them
+  (e.g. PUBACK: no properties ⇒ reason code 0; v5 DISCONNECT always carries a property set). `readPacket_wf` shows
+  every accepted packet satisfies it, so it excludes nothing the decoder can produce. -/
+
+/-- `decode_no_overread`: `ReadPacket` consumes a prefix of the stream and returns exactly the rest. When it returns a
+    packet, the prefix is the first byte, the Remaining Length field and exactly the declared number of body bytes
+    (`consumed = 1 + len(vbi) + n`), and — provided the length field was complete — the result is the same whatever
+    follows the packet: the body parser sees only the declared window. (On error, too, what is left is a suffix.) -/
+theorem decode_no_overread (v : Nat) (bs : Bytes) :
+    (∃ pre, bs = pre ++ (readPacket v bs).rest) ∧
+    ∀ p, (readPacket v bs).res = .ok p →
+      ∃ first vbi window n, bs = first :: (vbi ++ (window ++ (readPacket v bs).rest)) ∧ window.length = n
+        ∧ decVbi (vbi ++ (window ++ (readPacket v bs).rest)) = .ok (n, window ++ (readPacket v bs).rest)
+        ∧ (VbiTerminated vbi → ∀ ext, readPacket v (first :: (vbi ++ (window ++ ext))) = { res := .ok p, rest := ext }) :=
+  readPacket_no_overread v bs
+
+/-- `encode_decode`: every well-formed packet value of every type packs, and `ReadPacket` under the same reader version
+    reads the packed bytes back to the identical value, consuming exactly those bytes. -/
+theorem encode_decode (v : Nat) (hv : v = 3 ∨ v = 4 ∨ v = 5) (p : Packet) (h : WF v p) (ext : Bytes) :
+    ∃ bs, pack p = .ok bs ∧ readPacket v (bs ++ ext) = { res := .ok p, rest := ext } :=
+  encode_decode_all v hv p h ext
+
+/-- every packet the decoder accepts — from any byte string — is well-formed -/
+theorem decode_wf (v : Nat) (hv : v = 3 ∨ v = 4 ∨ v = 5) (bs : Bytes) (hb : AllBytes bs) (p : Packet)
+    (h : (readPacket v bs).res = .ok p) : WF v p :=
+  readPacket_wf v hv bs p hb h
+
+/-- `reencode_stable`: every accepted packet re-encodes (`Pack` succeeds) to bytes that decode to an equal packet,
+    for every packet type and version. With the unchanged tree this failed for v3.1 CONNECT (F23) and CONNECT with
+    Will QoS 3 (N7); the model carries the fixes. -/
+theorem reencode_stable (v : Nat) (hv : v = 3 ∨ v = 4 ∨ v = 5) (bs : Bytes) (hb : AllBytes bs) (p : Packet)
+    (h : (readPacket v bs).res = .ok p) (ext : Bytes) :
+    ∃ out, pack p = .ok out ∧ readPacket v (out ++ ext) = { res := .ok p, rest := ext } :=
+  reencode_stable_all v hv bs p hb h ext
+
+/-- `size_exact` (packets): whenever `Pack` succeeds, `packets.TotalBytes` — computed from the Remaining Length that `Pack`
+    caches in the fixed header — equals the number of bytes written. -/
+theorem size_exact (p : Packet) (out : Bytes) (h : pack p = .ok out) :
+    ∃ t fl body, bodyOf p = .ok (t, fl, body) ∧ totalBytes body.length = out.length := by
+  simp only [pack] at h
+  cases hb : bodyOf p with
+  | error e => rw [hb] at h; cases h
+  | ok r =>
+    obtain ⟨t, fl, body⟩ := r
+    rw [hb] at h
+    exact ⟨t, fl, body, rfl, totalBytes_frame t fl body out h⟩
+
+/-- `size_exact` (messages): `Message.TotalBytes(version)` equals the length of the PUBLISH that `MessageToPublish` +
+    `Pack` produce, for every message with QoS ≤ 2 whose property block and remaining length are below 2^28
+    (no condition on the strings: over-long fields are counted the way they are written). N5 fixed. -/
+theorem msg_size_exact' (v : Nat) (m : Message) (hq : m.qos ≤ 2) (hp : msgPropsLen m ≤ 268435455)
+    (h : msgRemLen v m ≤ 268435455) :
+    ∃ out, pack (.publish (messageToPublish m v)) = .ok out ∧ out.length = msgTotalBytes v m :=
+  msg_size_exact v m hq hp h
+
+/-- N5: with the unchanged `MessageToPublish` a non-nil empty Correlation Data makes the packet 3 bytes longer than
+    `TotalBytes` says (topic "a", payload "b": 7 vs 10) -/
+def n5Witness : Message :=
+  { dup := false, qos := 0, retained := false, topic := [0x61], payload := [0x62], pid := 0, contentType := [], correlationData := some [], messageExpiry := 0, payloadFormat := 0, responseTopic := [], subIds := [], user := [] }
+
+theorem msg_size_exact_orig_violated :
+    msgTotalBytes 5 n5Witness = 7 ∧
+    ∃ out, pack (.publish (Orig.messageToPublish n5Witness 5)) = .ok out ∧ out.length = 10 :=
+  ⟨by decide, [0x30, 0x08, 0x00, 0x01, 0x61, 0x03, 0x09, 0x00, 0x00, 0x62], rfl, rfl⟩
+
+/-- F24 (recorded): the full-strength statement "memory allocated up front is proportional to the bytes supplied"
+    is FALSE for the code as it is: five bytes make `Publish.Unpack` allocate 268 435 455 bytes. -/
+def AllocProportionalStatement : Prop := ∀ v bs, allocBytes v bs ≤ 2 * bs.length + 4096
+
+theorem alloc_proportional_violated : ¬ AllocProportionalStatement := by
+  intro h
+  have := h 4 [0x30, 0xFF, 0xFF, 0xFF, 0x7F]
+  have e : allocBytes 4 [0x30, 0xFF, 0xFF, 0xFF, 0x7F] = 268435455 := by decide
+  rw [e] at this
+  simp at this
+
+/-- what does hold: whenever a packet is returned, the allocation was covered by bytes actually received -/
+theorem alloc_proportional_partial (v : Nat) (bs : Bytes) (p : Packet) (h : (readPacket v bs).res = .ok p) :
+    allocBytes v bs ≤ bs.length := by
+  cases bs with
+  | nil => simp [allocBytes]
+  | cons first s1 =>
+    simp only [readPacket, allocBytes] at h ⊢
+    cases hd : decVbi s1 with
+    | error e => simp
+    | ok r =>
+      obtain ⟨n, s2⟩ := r
+      rw [hd] at h
+      simp only [newPacket] at h ⊢
+      have hl := decVbiAux_len' s1 0 0 n s2 hd
+      cases hp : planOf (first / 16) (first % 16) n v with
+      | fail e => simp
+      | done q => simp
+      | window e f =>
+        rw [hp] at h
+        simp only [runPlan] at h ⊢
+        obtain ⟨hn, _⟩ := withWindow_res h
+        simp only [List.length_cons]
+        omega
+
 /-! ### non-vacuity -/
+
+/-- a v5 PUBLISH with QoS 1, topic "a/b", payload format, topic alias, two user properties and a payload is well-formed -/
+example : WF 5 (.publish { version := 5, dup := true, qos := 1, retain := false, topic := [0x61, 0x2F, 0x62], pid := 7, payload := [1, 2, 3, 255], props := some [(0x01, .byte 1), (0x23, .u16 5), (0x26, .users [([0x6B], [0x76]), ([], [])])] }) := by
+  have ht : validUTF8 [0x61, 0x2F, 0x62] = true := validUTF8_ascii _ (by simp)
+  have hk : validUTF8 [0x6B] = true := validUTF8_ascii _ (by simp)
+  have hv : validUTF8 [0x76] = true := validUTF8_ascii _ (by simp)
+  have he : validUTF8 [] = true := validUTF8_ascii _ (by simp)
+  have hn : validTopicName true [0x61, 0x2F, 0x62] = true := by
+    have := (validName_iff [0x61, 0x2F, 0x62]).mpr ⟨(validUTF8_iff _).mp ht, by
+      rw [nameShape_iff]; simp [nameBytes, cPlus, cHash]⟩
+    simp only [Bool.and_eq_true] at this
+    exact this.2
+  refine ⟨rfl, by simp, by simp, by simp, by simp, ht, fun _ => hn, ?_, by
+    simp [publishBody, v5, packProps, packBody, encEntry, writeBin, writeU16, encVbiOrNil, encVbi, vbiDigits]⟩
+  rw [if_pos (by simp [v5])]
+  refine ⟨_, rfl, ⟨by simp [SortedProps], ?_, ?_, by simp [Props.has, Props.get, List.lookup],
+    by simp [packBody, encEntry, writeBin, writeU16, vbiMax]⟩, by simp⟩
+  · intro e he'
+    simp only [List.mem_cons, List.not_mem_nil, or_false] at he'
+    rcases he' with rfl | rfl | rfl <;>
+      simp [wfEntry, kindOf, propKinds, List.lookup, validU16, hk, hv, he]
+  · intro e he'
+    simp only [List.mem_cons, List.not_mem_nil, or_false] at he'
+    rcases he' with rfl | rfl | rfl <;> decide
+
+/-- a v3.1.1 SUBSCRIBE with two filters and a v5 PUBACK with a reason string are well-formed -/
+example : WF 4 (.subscribe { version := 4, pid := 10, props := none, topics := [{ name := [0x61, 0x2F, 0x2B], qos := 1, noLocal := false, rap := false, retainHandling := 0 }, { name := [0x23], qos := 2, noLocal := false, rap := false, retainHandling := 0 }] }) := by
+  have h1 : validUTF8 [0x61, 0x2F, 0x2B] = true := validUTF8_ascii _ (by simp)
+  have h2 : validUTF8 [0x23] = true := validUTF8_ascii _ (by simp)
+  have f1 : validTopicFilter true [0x61, 0x2F, 0x2B] = true := by
+    have := (validFilter_iff [0x61, 0x2F, 0x2B]).mpr ⟨(validUTF8_iff _).mp h1, by
+      rw [filterShape_iff]; simp [filterBytes, headNotSlash, cPlus, cHash, cSlash]⟩
+    simp only [Bool.and_eq_true] at this
+    exact this.2
+  have f2 : validTopicFilter true [0x23] = true := by
+    have := (validFilter_iff [0x23]).mpr ⟨(validUTF8_iff _).mp h2, by
+      rw [filterShape_iff]; simp [filterBytes, headNotSlash, cPlus, cHash]⟩
+    simp only [Bool.and_eq_true] at this
+    exact this.2
+  refine ⟨rfl, by simp, by simp, ?_, by simp [WFOptProps, v5], by
+    simp [subscribeBody, v5, writeBin, writeU16]⟩
+  intro t ht
+  simp only [List.mem_cons, List.not_mem_nil, or_false] at ht
+  rcases ht with rfl | rfl
+  · exact ⟨by simp, h1, by simp [v5, f1], by simp, by simp [v5]⟩
+  · exact ⟨by simp, h2, by simp [v5, f2], by simp, by simp [v5]⟩
+
+example : WF 5 (.puback { version := 5, pid := 65535, code := 0x10, props := some [(0x1F, .str [0x6F, 0x6B])] }) := by
+  have h1 : validUTF8 [0x6F, 0x6B] = true := validUTF8_ascii _ (by simp)
+  refine ⟨rfl, by simp, by simp, ?_, by
+    simp [ackBody, v5, packProps, packBody, encEntry, writeBin, writeU16, encVbiOrNil, encVbi, vbiDigits]⟩
+  rw [if_pos (by simp [v5])]
+  refine ⟨by simp, fun l hl => ?_⟩
+  simp only [Option.some.injEq] at hl
+  subst hl
+  refine ⟨by simp [SortedProps], ?_, ?_, by simp [Props.has, Props.get, List.lookup],
+    by simp [packBody, encEntry, writeBin, writeU16, vbiMax]⟩
+  · intro e he'
+    simp only [List.mem_cons, List.not_mem_nil, or_false] at he'
+    subst he'
+    simp [wfEntry, kindOf, propKinds, List.lookup, validStr, h1]
+  · intro e he'
+    simp only [List.mem_cons, List.not_mem_nil, or_false] at he'
+    subst he'
+    decide
 
 /-- a CONNECT property set with five kinds of properties (u32, string, binary, u16, two user properties) is well-formed -/
 example : WFProps (some tCONNECT)
